@@ -12,7 +12,13 @@ cd $W
 go test -vet=off -count=1 -run 'TestSeededDemo' . >/tmp/vm-$N.base.log 2>&1; base=$?
 git apply "$D/patch.diff" || { echo "VERDICT $N patch-does-not-apply"; cd /; git -C /repo worktree remove --force $W; exit 1; }
 go build ./... >/tmp/vm-$N.build.log 2>&1; build=$?
-go test -vet=off -count=1 -skip 'TestSeededDemo' ./... >/tmp/vm-$N.suite.log 2>&1; suite=$?
+# the repository's own TestConcurrent (DeleteRollover, Delete) is flaky on every tree, more so on a busy machine
+# (DESIGN 12.3): a failing suite run is repeated, up to three runs in all
+for try in 1 2 3; do
+  go test -vet=off -count=1 -skip 'TestSeededDemo' ./... >/tmp/vm-$N.suite.log 2>&1; suite=$?
+  [ $suite = 0 ] && break
+  grep -q -- '--- FAIL' /tmp/vm-$N.suite.log && ! grep -- '--- FAIL' /tmp/vm-$N.suite.log | grep -qv 'TestConcurrent' || break
+done
 go test -vet=off -count=1 -run 'TestSeededDemo' . >/tmp/vm-$N.demo.log 2>&1; demo=$?
 cd /
 git -C /repo worktree remove --force $W
